@@ -133,10 +133,13 @@ Finish ==
     /\ pos' = pos + 1
     /\ UNCHANGED <<cfg, prev, chunk>>
 
+\* (the candidate set is built from the per-segment function sets: a set of functions over every possible document
+\*  range, filtered afterwards, has 20^(terms x segments) members and is never enumerated to the end)
+PostOf(s) == [Terms -> [DocsOf(s) -> Attr \cup {Absent}]]
 Init ==
-    /\ cfg \in [post : [Segs -> [Terms -> UNION {[0..(n - 1) -> Attr \cup {Absent}] : n \in 1..2}]],
-                drops : [Segs -> SUBSET (0..1)]]
-    /\ \A s \in Segs : /\ \A t \in Terms : DOMAIN cfg.post[s][t] = DocsOf(s)
+    /\ cfg \in [post : [Segs -> UNION {PostOf(s) : s \in Segs}],
+                drops : [Segs -> UNION {SUBSET DocsOf(s) : s \in Segs}]]
+    /\ \A s \in Segs : /\ cfg.post[s] \in PostOf(s)
                        /\ cfg.drops[s] \subseteq DocsOf(s)
     /\ pos = 1 /\ prev = Nil /\ roar = {} /\ entries = <<>> /\ last = ZeroLast /\ chunk = "none" /\ out = <<>>
 
@@ -195,5 +198,6 @@ McSegDocs21 == <<2, 1>>
 McSegDocs323 == <<3, 2, 3>>
 McSegDocs22 == <<2, 2>>
 McSegDocs111 == <<1, 1, 1>>
+McSegDocs11 == <<1, 1>>
 
 =============================================================================
